@@ -4,7 +4,7 @@ from __future__ import annotations
 import ast
 
 from ..absval import Lin, Undecided
-from ..core import (AnalysisError, call_name, const, dotted, is_const, kwarg, local_defs, norm,
+from ..core import (AnalysisError, alpha, call_name, const, dotted, is_const, kwarg, local_defs, norm,
                     origin, parent_map, walk_local)
 from ..facts import helper_by_role, guards_of, mentions, recv_calls, returns_of, unpack_of, assigned_subscripts, enclosing_loops
 from ..rules.nonmut import is_deepcopy, mutations
@@ -40,10 +40,11 @@ META = {
 
 
 def run(rep):
-    rep.alias = {"O6.4": "O3.6"}
+    rep.alias = {"O6.4": "O3.6", "O6.1": "O3.6", "O6.2": "O3.6", "O6.3": "O3.6"}
     from . import C06
     rep.run(C06.candidates)  # the embeddings that are glued place different template components on different substrate components
     rep.run(C06.component_aware)
+    rep.run(C06.predicates_and_roles)  # ... and respect the template's atom / bond labels (a product set is an instance of the rule only for such matches)
     rep.alias = {}
     rep.run(nonmutation)
     rep.run(node_glue)
@@ -169,6 +170,12 @@ def bond_glue(rep):
                   and isinstance(l.target, ast.Tuple) and len(l.target.elts) == 3]
     rep.need("SRC", len(edge_loops), 1, "loop over template bonds in _glue_graph")
     lp = edge_loops[0]
+    # "is there already a substrate bond between the matched end points" must be an orientation-free test (has_edge / EdgeView membership)
+    from ..rules.edgeset import oriented_edge_membership
+    bad_m = oriented_edge_membership(fi.node)
+    rep.ob("O3.3", "SRC", fi, not bad_m, alpha(bad_m[0][0], fi.node) if bad_m else "has_edge(hu, hv)",
+           "whether a template bond meets an existing substrate bond is decided independently of the order in which the two atoms are named" +
+           (": " + bad_m[0][1] + "; a bond formed on top of an existing one then overwrites it instead of adding to it" if bad_m else ""), node=bad_m[0][0] if bad_m else lp)
     u, v, rc_attr = [norm(e) for e in lp.target.elts]
     # (1) every substrate bond enters as (o, o) with standard_order 0
     pre = [(n, b) for n, b in pfind("$d['order'] = ($$a, $$b)", fi.node, into_nested=False) if not any(x is n for x in ast.walk(lp))]
